@@ -195,8 +195,11 @@ class SensitiveWordAnonymizer(object):
     @classmethod
     def _generate_sensitive_word_regex(cls, sensitive_words):
         """Compile and return regex for the specified list of sensitive words."""
+        # Fixed order (longest first): with overlapping words the result must not
+        # depend on the iteration order of a set, i.e. on the hash seed
+        ordered_words = sorted(sensitive_words, key=lambda w: (-len(w), w))
         return re.compile(
-            "({})".format("|".join(re.escape(w) for w in sensitive_words)),
+            "({})".format("|".join(re.escape(w) for w in ordered_words)),
             re.IGNORECASE,
         )
 
